@@ -76,6 +76,13 @@ def run(ctx: Ctx) -> None:
             for act in ("ReaderNext", "RReadList", "RReadManifest", "RReturn", "FlipHint"):
                 if res.coverage.get(act, 0) == 0:
                     raise MachineryError(f"vacuous model run '{label}': action {act} never taken (coverage {res.coverage})")
+        # one transient storage error anywhere (reader: RFault, writer: Fault): a failed read is not an answer, every
+        # successful one is still a snapshot; a failed commit is never visible
+        rs = dict(Actors=Raw("<- ARS"), Role=Raw("<- Role_RS"), Idx=Raw("<- Idx_RS"), Handle=Raw("<- Sep_RS"))
+        c01.run_mc(ctx, [("reader || two-file transaction, one transient fault", c01.mc_base(Prog=Raw("<- Prog_RA"), FaultKinds={"before"}, FaultBudget=1,
+                                                                                             FixInterrupt=True, FixOrphanMeta=True, **rs), True)],
+                   [i for i in INV if i != "ReadsNeverFail"] + ["AckedOnce"])
+
         def reader_faults(scn: Scenario, steps: Dict[str, int]) -> List[Tuple[str, Any]]:
             """A transient storage error at every step of a read, with the writer paused at every point of its commit
             (in particular between its metadata write and the pointer flip): the read must raise, never answer from
